@@ -682,6 +682,11 @@ class Lexer(object):
 
     @ply.lex.TOKEN(identifier)
     def t_ID(self, token):
+        if (self.cur_token_real is not None and
+                self.cur_token_real.type == 'PERIOD'):
+            # a reserved word after a `.` is a property name (ES5 11.2.1
+            # IdentifierName), not a keyword
+            return token
         token.type = self.keywords_dict.get(token.value, 'ID')
         return token
 
